@@ -437,7 +437,23 @@ where
         let trailer_dict = trailer.to_dict(self)?;
         
         let xref_promise = self.promise::<Stream<XRefInfo>>();
+        let old_len = self.backend.len();
+        if let Err(e) = self.write_revision(xref_promise, &trailer_dict) {
+            // leave nothing of the failed attempt behind: neither a partial revision nor the
+            // promised entry, which would make every later save fail
+            self.backend.truncate(old_len);
+            self.refs.pop();
+            return Err(e);
+        }
 
+        // update trailer which may have change now.
+        self.cache.clear();
+        *trailer = Trailer::from_dict(trailer_dict, &self.resolver())?;
+
+        Ok(&self.backend)
+    }
+
+    fn write_revision(&mut self, xref_promise: PromisedRef<Stream<XRefInfo>>, trailer_dict: &Dictionary) -> Result<()> {
         let mut changes: Vec<_> = self.changes.iter().collect();
         changes.sort_unstable_by_key(|&(id, _)| id);
 
@@ -468,12 +484,7 @@ where
         let _ = self.fulfill(xref_promise, stream)?;
 
         write!(self.backend, "\nstartxref\n{}\n%%EOF", xref_pos).unwrap();
-
-        // update trailer which may have change now.
-        self.cache.clear();
-        *trailer = Trailer::from_dict(trailer_dict, &self.resolver())?;
-
-        Ok(&self.backend)
+        Ok(())
     }
 }
 
